@@ -252,7 +252,8 @@ J gen_hostile_cli(uint64_t seed, const J &ov)
 		// query - the start value of its id sequence, which never went out - during the first tunnel queries
 		int na = (int)r.range(1, 4);
 		for (int i = 0; i < na; i++) {
-			J op = J::obj(); op.set("ref", "T0"); op.set("t", (long long)((0.002 + r.uniform() * (r.chance(0.5) ? 0.2 : 2.0)) * 1e6)); op.set("aim", "before_first");
+			// ... or under DNS id 0, the value of the still unused entries of the client's table of recent ids after a short handshake
+			J op = J::obj(); op.set("ref", "T0"); op.set("t", (long long)((0.002 + r.uniform() * (r.chance(0.5) ? 0.2 : 2.0)) * 1e6)); op.set("aim", r.chance(0.6) ? "before_first" : "zero_id");
 			op.set("op", "dgram"); op.set("from", "atk0"); op.set("from_ip", "10.9.2.1"); op.set("to", "c0"); op.set("dport", "auto"); op.set("spoof_ip", "10.9.0.1"); op.set("sport", 53);
 			Bytes x = r.bytes((size_t)r.range(28, 200)); x[0] = 0; x[1] = 0; x[2] = 8; x[3] = 0; x[4] = 0x45;
 			Bytes pl = {(uint8_t)((r.range(0, 7) << 5) | 1), (uint8_t)r.range(0, 255)}; Bytes z = z_compress(x); pl.insert(pl.end(), z.begin(), z.end());
